@@ -460,12 +460,74 @@ pub fn pairs(r: &mut Rng, n: usize, count: usize) -> Vec<(B, B)> {
     let count = count.max(v.len() + 20);
     while v.len() < count {
         let a = any(r, n, &bnd);
-        let b = match r.below(8) {
+        let b = match r.below(12) {
             0 => a.clone(),
             1 => negate(&a),
             2 => add1(&negate(&a)),
             3 => sub1(&negate(&a)),
             4 => a.iter().map(|x| !x).collect(),
+            // relations between the DIGITS of the two operands, at a random granularity:
+            // equal except for one digit (complemented, or off by one)
+            5 => {
+                let g = *r.pick(&[1usize, 2, 4, 8]);
+                let nd = (n + g - 1) / g;
+                let k = r.below(nd as u64) as usize;
+                let mut b = a.clone();
+                let lo = k * g;
+                let hi = (lo + g).min(n);
+                if r.below(2) == 0 {
+                    for t in lo..hi {
+                        b[t] = !b[t];
+                    }
+                } else {
+                    let d = add1(&b[lo..hi].to_vec());
+                    b[lo..hi].copy_from_slice(&d);
+                }
+                b
+            }
+            // one digit of b is a function (copy, complement, successor) of ANOTHER digit of a
+            6 => {
+                let g = *r.pick(&[1usize, 2, 4, 8]);
+                let nd = n / g;
+                let mut b = any(r, n, &bnd);
+                if nd >= 2 {
+                    let i = r.below(nd as u64) as usize;
+                    let j = (i + 1 + r.below(nd as u64 - 1) as usize) % nd;
+                    let src: Vec<u8> = a[j * g..(j + 1) * g].to_vec();
+                    let d: Vec<u8> = match r.below(3) {
+                        0 => src,
+                        1 => src.iter().map(|x| !x).collect(),
+                        _ => add1(&src),
+                    };
+                    b[i * g..(i + 1) * g].copy_from_slice(&d);
+                }
+                b
+            }
+            // a copy of a moved by whole digits (shifted up or down, or rotated)
+            7 => {
+                let g = *r.pick(&[1usize, 2, 4, 8]);
+                let k = g * (1 + r.below(((n / g).max(2) - 1) as u64) as usize);
+                let k = k % n.max(1);
+                let mut b = vec![0u8; n];
+                match r.below(3) {
+                    0 => {
+                        for t in k..n {
+                            b[t] = a[t - k];
+                        }
+                    }
+                    1 => {
+                        for t in 0..n - k {
+                            b[t] = a[t + k];
+                        }
+                    }
+                    _ => {
+                        for t in 0..n {
+                            b[(t + k) % n] = a[t];
+                        }
+                    }
+                }
+                b
+            }
             _ => any(r, n, &bnd),
         };
         v.push((a, b));
